@@ -156,7 +156,7 @@ func runIsolated(fam string, c Case) interface{} {
 	b, _ := json.Marshal(cc)
 	tmp.Write(append(b, '\n'))
 	tmp.Close()
-	ctx, cancel := context.WithTimeout(context.Background(), 180*time.Second)
+	ctx, cancel := context.WithTimeout(context.Background(), 900*time.Second)
 	defer cancel()
 	cmd := exec.CommandContext(ctx, os.Args[0], "-fam", fam, "-replay", tmp.Name(), "-child")
 	var stdout, stderr bytes.Buffer
